@@ -120,7 +120,13 @@ def impl_case(c):
             return info
     R = MPI.run(nranks, work, seed=seed, timeout=240)
     if R.outcome != 'ok':
-        return ('fail', R.outcome, R.detail[:400])
+        # what the constructor built (axes, routes), so that the failure can be classified
+        info = None
+        if walk:
+            r0 = impl_case((N, layouts, nprocs, start, [], dt, seed))
+            if r0[0] == 'ok':
+                info = r0[1][0]
+        return ('fail', R.outcome, R.detail[:400], info)
     if any('rejected' in r for r in R.results):
         rej = [r.get('rejected') for r in R.results]
         if all(x == rej[0] for x in rej):
@@ -213,7 +219,8 @@ def random_grouping(rng, n0, n1, emax=7):
     nprocs = [[n0, n1]]
     for hi in range(rng.randint(1, 2)):
         h = {}
-        ax = rng.randrange(2)
+        ax = rng.randrange(2) if hi == 0 or rng.random() < 0.25 else 1 - prev_ax
+        prev_ax = ax
         for li in range(rng.randint(1, 2)):
             if rng.random() < 0.85:
                 base = rng.choice(h0)
@@ -274,14 +281,14 @@ def gen(chk):
         for _ in range(reps_walk):
             st = rng.choice(names)
             cases.append(((N, layouts, nprocs, st, make_walk(rng, names, st), rng.choice('fc'), rng.randrange(10 ** 6)), fam))
-    per_grid = 2 if quick else 14
+    per_grid = 6 if quick else 14
     for (n0, n1) in grids(nmax):
         for _ in range(per_grid):
             add(fullsim_case(rng, n0, n1), 'fullsim')
         for k in range(len(UPSTREAM)):
-            for _ in range(1 if quick else 4):
+            for _ in range(2 if quick else 4):
                 add(upstream_case(rng, k, n0, n1), 'upstream%d' % k)
-    nrand = 150 if quick else 2600
+    nrand = 600 if quick else 2600
     for _ in range(nrand):
         n0, n1 = rng.choice(grids(nmax))
         if rng.random() < 0.3:
@@ -356,6 +363,32 @@ def evenness(N, lay, info, name):
     return '+'.join(sorted(cl)) or 'serial'
 
 
+KNOWN_EQRANK = 'layout.LayoutSwapper._compatibleLayout:equal-handler-rank-same-communicators-different-distributed-dimension'
+
+
+def dist_map(info, lay, name):
+    """dimension -> topology axis, for the directions that are really distributed (extent > 1)"""
+    h = info['handler'][name]
+    return {lay[name][i]: t for i, t in enumerate(info['axes'][h]) if info['topo'][t] > 1}
+
+
+def defect_class(info, lay, a, b):
+    """does the swapper's route a -> b contain a cross-handler step between two handlers with the same number of
+    axes and the same communicators whose layouts distribute different dimensions over them?  (_compatibleLayout
+    declares such a pair compatible without looking at the dimension orders; _transpose then treats the step as a
+    local transpose.)  Returns the offending pair or None."""
+    if a == b or info['handler'][a] == info['handler'][b]:
+        return None
+    cur = a
+    for nxt in info['sroute'][a][b]:
+        hx, hy = info['handler'][cur], info['handler'][nxt]
+        if hx != hy and len(info['hprocs'][hx]) == len(info['hprocs'][hy]) \
+                and sorted(info['axes'][hx]) == sorted(info['axes'][hy]) and dist_map(info, lay, cur) != dist_map(info, lay, nxt):
+            return (cur, nxt)
+        cur = nxt
+    return None
+
+
 def own_block(N, lay, info, name, w):
     """start and shape of world rank w's block computed from the topology coordinates (independent of Layout)"""
     topo = info['topo']
@@ -426,14 +459,29 @@ def run():
             continue
         if r[0] != 'ok':
             chk.count(('fail', N, str(layouts), str(nprocs)), stratum='failed-run',
-                      sample={'N': N, 'layouts': layouts, 'nprocs': nprocs, 'start': start, 'walk': walk, 'result': list(r)})
+                      sample={'N': N, 'layouts': layouts, 'nprocs': nprocs, 'start': start, 'walk': walk, 'result': list(r)[:3]})
             what = r[1] if len(r) > 1 else r[0]
+            info = r[3] if len(r) > 3 else None
+            known = None
+            if info is not None:
+                cur = start
+                for k, (nxt, ub, bb) in enumerate(walk):
+                    known = defect_class(info, lay, cur, nxt) or defect_class(info, lay, nxt, cur)
+                    if known:
+                        break
+                    cur = nxt
+            if known:
+                chk.violation(KNOWN_EQRANK, '%s: run outcome %s; the route of step %d contains the direct transition %s <-> %s between handlers '
+                              'with communicators on topology axes %r that distribute different dimensions (topology %r)'
+                              % (desc, list(r)[1:3], k, known[0], known[1], info['axes'], info['topo']),
+                              dict(replay_obj, observed=list(r)[:3], pair=list(known)))
+                continue
             et = ''
             if what == 'exception' and len(r) > 2:
                 parts = r[2].split(':')
                 et = '-' + parts[1].strip() if len(parts) > 1 else ''
-            chk.violation('layout.LayoutSwapper.transpose:%s%s' % (what, et), '%s: run outcome %s' % (desc, list(r)[1:]),
-                          dict(replay_obj, observed=list(r)))
+            chk.violation('layout.LayoutSwapper.transpose:%s%s' % (what, et), '%s: run outcome %s' % (desc, list(r)[1:3]),
+                          dict(replay_obj, observed=list(r)[:3]))
             continue
         res = r[1]
         info = res[0]
@@ -485,6 +533,11 @@ def run():
                         if res[w]['out'][k]['dest'] != res[ws[0]]['out'][k]['dest']:
                             bad, key = 'replicas %d and %d of layout %s differ' % (ws[0], w, nxt), 'replicas-differ'
             okv = okres.get((ci, k))
+            if bad and (defect_class(info, lay, cur, nxt) or defect_class(info, lay, nxt, cur)):
+                chk.violation(KNOWN_EQRANK, '%s step %d %s -> %s (route %r, topology %r axes %r): %s'
+                              % (desc, k, cur, nxt, route, info['topo'], info['axes'], bad), dict(rep1, what=bad))
+                cur = nxt
+                continue
             if bad:
                 chk.violation('layout.LayoutSwapper.transpose:%s' % key,
                               '%s step %d %s -> %s (route %r, kinds %s, topology %r axes %r): %s'
@@ -507,6 +560,9 @@ def run():
             cur, nxt, route = okinfo[(ci, k)]
             N, layouts, nprocs, start, walk, dt, seed = cases[ci]
             info = impl[ci][1][0]
+            lay = {n: l for h in layouts for n, l in h.items()}
+            if defect_class(info, lay, cur, nxt):
+                continue            # reported with its failing input above
             chk.violation('layout.LayoutSwapper:route-step-not-well-formed',
                           'N=%r layouts=%r nprocs=%r topology=%r axes=%r: route %s -> %s = %r has a step that does not satisfy '
                           'sw_step_wf_b / sw_int_wf_b (answer %s)' % (N, layouts, nprocs, info['topo'], info['axes'], cur, nxt, route, ok),
